@@ -163,6 +163,13 @@ func (m *SubscribeMessage) Decode(src []byte) (int, error) {
 		return total, err
 	}
 
+	// Only the bytes of this message are decoded
+	src = m.dbuf
+
+	if m.remlen < 2 {
+		return total, fmt.Errorf("subscribe/Decode: Insufficient remaining length %d. Expecting at least %d", m.remlen, 2)
+	}
+
 	//this.packetId = binary.BigEndian.Uint16(src[total:])
 	m.packetID = src[total : total+2]
 	total += 2
@@ -173,6 +180,10 @@ func (m *SubscribeMessage) Decode(src []byte) (int, error) {
 		total += n
 		if err != nil {
 			return total, err
+		}
+
+		if len(src) < total+1 {
+			return total, fmt.Errorf("subscribe/Decode: Insufficient buffer size. Expecting %d, got %d", total+1, len(src))
 		}
 
 		m.topics = append(m.topics, t)
